@@ -279,6 +279,6 @@ def run_shard(ctx):
         stats.extra["canonical_scenarios"] = len(CANONICAL)
         stats.extra["canonical_fault_points"] = npts
     stats.extra["canonical_enumeration_complete"] = 1 if complete else 0
-    core.hyp_search(scenario_strategy(), lambda c: execute(c, ctx.scratch), stats, max_examples=10 if thorough else 2,
+    core.hyp_search(scenario_strategy(), lambda c: execute(c, ctx.scratch), stats, max_examples=30 if thorough else 2,
                     seed=core.hash64(ctx.seed, ID, ctx.shard), findings=ctx.findings, shrink=False, deadline_s=dl(1.0))
     return stats
